@@ -12,8 +12,11 @@
 #include "clstepcore/instmgr.h"
 #include "clstepcore/ExpDict.h"
 
-static const char * ENT_NAMES[] = { "Alpha", "Beta_X", "Gamma" };
-static const char * ENT_KEYWORDS[] = { "ALPHA", "BETA_X", "GAMMA" };
+// two of the names are a prefix pair (Edge / Edge_Loop): a look-up by name must compare whole names
+static const char * ENT_NAMES[] = { "Edge", "Edge_Loop", "Face" };
+static const char * ENT_KEYWORDS[] = { "EDGE", "edge_loop", "face" };   // any letter case
+// keywords that name no entity: proper prefixes of names, a name with a suffix, the empty keyword
+static const char * NO_KEYWORDS[] = { "FA", "EDG", "EDGE_", "EDGE_LOOP_X", "" };
 static const int NNAMES = 3;
 
 struct TInst : public SDAI_Application_instance {
@@ -78,6 +81,11 @@ static void dump( std::ostream & out ) {
     out << " | kw";
     for( int a = 0; a < NNAMES; a++ ) {
         out << " " << mgr->EntityKeywordCount( ENT_KEYWORDS[a] );
+    }
+    out << " | none";
+    for( unsigned a = 0; a < sizeof( NO_KEYWORDS ) / sizeof( NO_KEYWORDS[0] ); a++ ) {
+        SDAI_Application_instance * se = mgr->GetApplication_instance( NO_KEYWORDS[a], 0 );
+        out << " " << mgr->EntityKeywordCount( NO_KEYWORDS[a] ) << ( ( se && se != ENTITY_NULL ) ? "X" : "-" );
     }
     out << " | by";
     for( int a = 0; a < NNAMES; a++ ) {
